@@ -118,8 +118,13 @@ def run(facts, tr, rep):
         if kind != "timeout":
             continue
         d = peel(tr.expand(tr.operand(b, ac.args[0], ac.loc), upvars=True))
-        ok = mentions_field(tr, d, "max_wait_duration") and d[0] != "binop"
-        rep.ob("C07.ERRORS", skey(b, "timeout-duration"), ok, ac.where(),
+        if ac.def_.startswith("tokio::time::timeout::timeout_at"):
+            # a deadline: accepted as now() + max_wait_duration / now().checked_add(max_wait_duration)
+            ds = deadline_durations(tr, d)
+            ok = ds is not None and all(mentions_field(tr, x, "max_wait_duration") and peel(x)[0] != "binop" for x in ds)
+        else:
+            ok = mentions_field(tr, d, "max_wait_duration") and d[0] != "binop"
+        rep.ob("C07.ERRORS", skey(b, "timeout-duration" + ("" if ok else "@%s" % ac.name)), ok, ac.where(),
                "the wait is bounded by config.max_wait_duration itself" if ok else "the wait duration is %s, not config.max_wait_duration" % show(d))
     # ---------------------------------------------------------------- BOUNDED-WAIT: an unbounded wait only when no max wait is configured
     for (a, kind, ac, acqc) in acq:
